@@ -510,6 +510,19 @@ class Engine(object):
                                      c.arg3, c.data, self.make_callback(c))
                          for c in cmds]
                 it = iter(calls) if self.tape.draw(2) else calls
+                if self.tape.draw(6) == 0 and not warped:
+                    # the caller builds every command's payload in one
+                    # buffer of its own, refilled as each command is asked
+                    # for (a command is what it was when it was handed over)
+                    w.probe("payload_buffer_reused")
+                    buf = bytearray()
+
+                    def refilling(calls_=calls):
+                        for call in calls_:
+                            buf[:] = call.data
+                            yield call._replace(data=buf)
+                    calls = refilling()
+                    it = calls
                 if self.policy.rate("slow_iterable") > 0:
                     it = self.slow_iter(calls)
                 if nested and self.nest_from_iterable:
